@@ -12,7 +12,7 @@ for d in sorted(glob.glob(os.path.join(src, "seeded", "*"))):
     a = json.load(open(os.path.join(d, "meta.json")))
     b = json.load(open(dst))
     det = a.get("detection") or {}
-    new = {k: v for k, v in det.items() if "method" in v}  # only results of this kind of run
+    new = {k: v for k, v in det.items() if "method" in v and v.get("exit") in (0, 1)}  # exit 2 = the run did not decide  # only results of this kind of run
     if new:
         b.setdefault("detection", {}).update(new)
         json.dump(b, open(dst, "w"), indent=1)
